@@ -22,6 +22,8 @@ package main
 //            checkpoint-contradicting header (last or inner checkpoint: the tip is left exactly on a checkpoint height) and is
 //            dropped; an honest peer takes over and must be synced from (last clause of C07); experimental engine: the honest
 //            peer's session starts after the drop
+//   desc-long  more orphan descendants of a forbidden header (pseudo heights 1..k, relayed by a second peer) than the honest chain
+//            is high, then an honest peer of a height between the tip and k
 //   forb-orphan  the forbidden header arrives while its parent is unknown: a batch with a gap in front of it, a batch that starts
 //            beyond the tip with it, a foreign-branch push; followed by its children; both engines
 //   random   seeded mixtures of the above ingredients
@@ -500,6 +502,33 @@ func runC07(c *Ctx) error {
 						if err := g.do(sc, "takeover-exp"); err != nil {
 							return err
 						}
+					}
+				}
+			}
+		}
+	}
+
+	// ---- desc-long: a second peer relays MORE descendants of a forbidden header (stored as orphans with pseudo heights 1..k) than
+	//      the honest chain is high; the sender of the forbidden header itself is banned; an honest peer whose height lies between
+	//      the tip and k must still be synced from (last clause of C07) ----
+	for _, a := range []int{1, 3} {
+		for _, yx := range [][2]int{{2, 6}, {5, 13}} {
+			y, x := yx[0], yx[1]
+			u, pre, good, bad := forkUniverse(a, y, x, tsOld)
+			u.Forbidden = []int{bad[0]}
+			n1 := &nodeSpec{P: 1, Cap: 2000, Chain: catInts(pre, bad[:1])}
+			n2 := &nodeSpec{P: 2, Cap: 2000, Chain: catInts(pre, bad[1:])} // the descendants without the forbidden header
+			n3 := &nodeSpec{P: 3, Cap: 2000, Chain: catInts(pre, good)}
+			for _, cmds := range [][]string{
+				{"C1", "R40", "C2", "R40", "X2", "R10", "C3", "R60"},
+				{"C2", "R40", "X2", "R10", "C1", "R40", "C3", "R60"},
+				{"C1", "R40", "C2", "R40", "C3", "X2", "R60"},
+				{"C1", "R40", "C2", "R40", "S2", "C3", "R20", "T0", "T1", "R60"},
+			} {
+				for _, cps := range [][]cpSpec{nil, {{a, pre[a-1]}}} {
+					sc := &Scenario{Eng: "d", Cps: cps, U: u, Nodes: []*nodeSpec{n1, n2, n3}, Cmds: cmds}
+					if err := g.do(sc, "desc-long"); err != nil {
+						return err
 					}
 				}
 			}
